@@ -20,8 +20,9 @@ Lemma nwm_modify f : nwm (modify f). Proof. intro s. constructor. exact I. Qed.
 Lemma nwm_next : nwm next_byte. Proof. intro s. constructor. intro. constructor. exact I. Qed.
 Lemma nwm_fail_dec {A} : nwm (@fail A ERR_DECRUNCH). Proof. apply nwm_fail. intro H. vm_compute in H. discriminate. Qed.
 Lemma nwm_fail_99 {A} : nwm (@fail A 99). Proof. apply nwm_fail. discriminate. Qed.
+Lemma nwm_fail_oob {A} : nwm (@fail A OOBQ). Proof. apply nwm_fail. discriminate. Qed.
 Create HintDb qnw.
-#[export] Hint Resolve nwm_ret nwm_fail_dec nwm_fail_99 nwm_get nwm_put nwm_modify nwm_next : qnw.
+#[export] Hint Resolve nwm_ret nwm_fail_dec nwm_fail_99 nwm_fail_oob nwm_get nwm_put nwm_modify nwm_next : qnw.
 Ltac qnw := repeat (match goal with
   | |- nwm (bnd _ _) => apply nwm_bnd
   | |- nwm (if ?b then _ else _) => destruct b
